@@ -5,7 +5,10 @@ mods = sys.argv[1].split(','); q = sys.argv[2]
 reg = {}
 for m in mods: reg.update(importlib.import_module('contracts.'+m).C)
 t0=time.time()
-ctx = core.Ctx(reg[q].get('function', q.split('#')[0]), reg[q], reg, budget=float(os.environ.get('B','10')), label=q)
+if q.startswith('lemma:'):
+    ctx = core.LemmaCtx(q, importlib.import_module('contracts.'+mods[0]).LEMMAS[q[6:]], reg, budget=float(os.environ.get('B','10')))
+else:
+    ctx = core.Ctx(reg[q].get('function', q.split('#')[0]), reg[q], reg, budget=float(os.environ.get('B','10')), label=q)
 try: ctx.run()
 except core.Unsupported as e: print("UNSUPPORTED:", e)
 os.makedirs('/verif/out/debug', exist_ok=True); k=0
